@@ -39,7 +39,7 @@ func (C08) Budget(tier string) (int, time.Duration) {
 	if tier == "thorough" {
 		return 1500, 28 * time.Minute
 	}
-	return 96, 5 * time.Minute
+	return 128, 5 * time.Minute
 }
 
 func (C08) Generate(t *tape.Tape, tier string) interface{} {
